@@ -421,12 +421,22 @@ func packageName(args []*lisp.LVal) string {
 
 func exportNames(args []*lisp.LVal) []string {
 	out := make([]string, 0, len(args))
+	for _, node := range exportNameNodes(args, nil) {
+		out = append(out, node.Str)
+	}
+	return out
+}
+
+// exportNameNodes returns the nodes that spell the names an export form
+// exports.  The export builtin accepts symbols, strings and (nested) lists of
+// those, so (export "pub") and (export '(a b)) export pub, a and b.
+func exportNameNodes(args []*lisp.LVal, out []*lisp.LVal) []*lisp.LVal {
 	for _, arg := range args {
 		switch {
-		case arg.Type == lisp.LSymbol:
-			out = append(out, arg.Str)
-		case arg.Type == lisp.LSExpr && arg.IsQuoted() && len(arg.Cells) > 0 && arg.Cells[0].Type == lisp.LSymbol:
-			out = append(out, arg.Cells[0].Str)
+		case arg.Type == lisp.LSymbol || arg.Type == lisp.LString:
+			out = append(out, arg)
+		case arg.Type == lisp.LSExpr && arg.IsQuoted():
+			out = exportNameNodes(arg.Cells, out)
 		}
 	}
 	return out
@@ -618,19 +628,10 @@ func rewriteExports(exprs []*lisp.LVal, scope *analysis.Scope, assignments map[*
 		if expr.Cells[0].Type != lisp.LSymbol || expr.Cells[0].Str != "export" {
 			continue
 		}
-		for _, arg := range expr.Cells[1:] {
-			switch {
-			case arg.Type == lisp.LSymbol:
-				if sym := scope.LookupLocalInPackage(arg.Str, currentPkg); sym != nil {
-					if newName, ok := assignments[sym]; ok {
-						arg.Str = newName //elps:mutates the minifier renames symbols in the AST it parsed for this run; the tree is tool-owned and never shared with an evaluator
-					}
-				}
-			case arg.Type == lisp.LSExpr && arg.IsQuoted() && len(arg.Cells) > 0 && arg.Cells[0].Type == lisp.LSymbol:
-				if sym := scope.LookupLocalInPackage(arg.Cells[0].Str, currentPkg); sym != nil {
-					if newName, ok := assignments[sym]; ok {
-						arg.Cells[0].Str = newName //elps:mutates the minifier renames symbols in the AST it parsed for this run; the tree is tool-owned and never shared with an evaluator
-					}
+		for _, node := range exportNameNodes(expr.Cells[1:], nil) {
+			if sym := scope.LookupLocalInPackage(node.Str, currentPkg); sym != nil {
+				if newName, ok := assignments[sym]; ok {
+					node.Str = newName //elps:mutates the minifier renames symbols in the AST it parsed for this run; the tree is tool-owned and never shared with an evaluator
 				}
 			}
 		}
